@@ -23,7 +23,8 @@ EXPLANATION = (
     "that same block, with a boolean mask and the value cast to the file dtype, and clean_rfi forwards the final chan_mask "
     "and the same (gulp, start, nsamps) to both passes; (R4) every Header field is either of a type that to_file stores "
     "generically or is stored and reloaded explicitly by name, and all arrays and the threshold are stored and reloaded. "
-    "Not decided: which channels the statistics flag (numeric)."
+    "Not decided: which channels the statistics flag (numeric). "
+    "Since F43-F45: clean_rfi runs its statistics pass on every call over the range it cleans (R3); every component mask is OR-ed into, like chan_mask (R1); the strided lag window of iqrm_mask uses the strides of the array it views (R1)."
 )
 RFI = "sigpyproc.core.rfi"
 BASE = "sigpyproc.base"
